@@ -1643,6 +1643,22 @@ pub fn next_initialized_tick(l: &Ledger, whirlpool: &Pubkey, from_tick: i32, a_t
 
 pub fn pick_limit(rng: &mut Rng, l: &Ledger, whirlpool: &Pubkey, pool: &decode::Pool, a_to_b: bool) -> u128 {
     let p = pool.sqrt_price;
+    // adaptive-fee pools: now and then a limit exactly the major-swap threshold away from a tick-aligned price (or, from
+    // an unaligned price, the next aligned one first), so that chains of swaps move the price by exactly the threshold
+    if let Some(o) = l.data(&ix::pda_oracle(whirlpool)).and_then(decode::oracle) {
+        if rng.chance(1, 6) {
+            let t0 = model::tick_of_sqrt_price(p);
+            let th = o.c.major_swap_threshold_ticks as i32;
+            let t = if model::sqrt_price_of_tick(t0) == p {
+                if a_to_b { t0 - th } else { t0 + th }
+            } else if a_to_b {
+                t0
+            } else {
+                t0 + 1
+            };
+            return model::sqrt_price_of_tick(t.clamp(MIN_TICK, MAX_TICK));
+        }
+    }
     match rng.below(20) {
         0..=6 => 0,
         7 | 8 => {
